@@ -14,7 +14,9 @@
 (* of a length in SimLens (simulation configuration, -simulate with the run's seed) and       *)
 (* prints, per sequence, the lexical classification of both joinings.                         *)
 (*                                                                                            *)
-(* Alphabet item: [id, core, hex, show, cls, items, ls, rs]                                   *)
+(* Alphabet item: [id, free, core, hex, show, cls, items, ls, rs]                             *)
+(*   free            the item takes part in the free / filler enumeration (the deeper          *)
+(*                   indentation items exist for the nested-frame family only)                *)
 (*   core            member of the small core alphabet (atoms, brackets, a few operators and  *)
 (*                   keywords) over which longer frame fillers are enumerated                 *)
 (*   cls = "tok"     items = the PyLex token items the text consists of                       *)
@@ -29,7 +31,8 @@
 (*                   without a space (brackets, comma, white space ...)                       *)
 EXTENDS Integers, Sequences, FiniteSets, TLC, Json, SequencesExt, PyLex
 
-CONSTANTS MaxLen,      \* exhaustive: every free sequence of 1..MaxLen items
+CONSTANTS NestDepth,   \* exhaustive: every misplaced-statement leaf under every nesting of 1..NestDepth compound frames
+          MaxLen,      \* exhaustive: every free sequence of 1..MaxLen items
           MaxFill,     \* exhaustive: every filler of 0..MaxFill items in every frame
           CoreFill,    \* exhaustive: every filler of up to CoreFill items of the core alphabet in every frame
                        \* (and, where the hole is a statement position, every item followed by a core item)
@@ -38,6 +41,7 @@ CONSTANTS MaxLen,      \* exhaustive: every free sequence of 1..MaxLen items
 
 Alpha == ndJsonDeserialize("alphabet.ndjson")
 NAlpha == Len(Alpha)
+FreeIds == { i \in 1..NAlpha : Alpha[i].free }
 
 (* The physical lines (PyLex items) of the text obtained by joining the items of seq.         *)
 Build(seq, sp) ==
@@ -123,8 +127,53 @@ FrameIds == [f \in 1..NFrames |-> [pre |-> IdsOf(Frames[f].pre), post |-> IdsOf(
 ASSUME \A f \in 1..NFrames : \A k \in 1..Len(Frames[f].pre) : \E i \in 1..NAlpha : Alpha[i].show = Frames[f].pre[k]
 ASSUME \A f \in 1..NFrames : \A k \in 1..Len(Frames[f].post) : \E i \in 1..NAlpha : Alpha[i].show = Frames[f].post[k]
 
-(* the item sequence of a case: a free sequence (f = 0) or a filler in frame f *)
-CaseSeq(f, fill) == IF f = 0 THEN fill ELSE (FrameIds[f].pre \o Spread(fill)) \o FrameIds[f].post
+(* ---- nested compound frames around a (possibly misplaced) simple statement ---------------- *)
+(* The checks the compile stage makes after parsing - block-stack walks for break / continue,   *)
+(* 'return' / 'yield' outside a function, nonlocal / global rules, import * - depend on the     *)
+(* NESTING of compound statements, which neither short free sequences nor single-hole frames    *)
+(* reach.  A compound frame is [head, tail]: head, a line break, the indented body, tail;       *)
+(* "NL0" / "NL1" stand for a line break followed by the indentation of the frame itself / of    *)
+(* its body.  A case is a nesting of 1..NestDepth frames around one leaf statement.             *)
+Cf(head, tail) == [head |-> head, tail |-> tail]
+Compounds == <<
+  Cf(<<"with", " ", "x", ":">>, <<>>),
+  Cf(<<"with", " ", "x", ",", " ", "y", ":">>, <<>>),
+  Cf(<<"try", ":">>, <<"NL0", "finally", ":", "NL1", "pass">>),
+  Cf(<<"try", ":", "NL1", "pass", "NL0", "finally", ":">>, <<>>),
+  Cf(<<"try", ":">>, <<"NL0", "except", ":", "NL1", "pass">>),
+  Cf(<<"try", ":", "NL1", "pass", "NL0", "except", ":">>, <<>>),
+  Cf(<<"try", ":", "NL1", "pass", "NL0", "except", " ", "x", " ", "as", " ", "y", ":">>, <<>>),
+  Cf(<<"try", ":", "NL1", "pass", "NL0", "except", ":", "NL1", "pass", "NL0", "else", ":">>, <<>>),
+  Cf(<<"for", " ", "x", " ", "in", " ", "y", ":">>, <<>>),
+  Cf(<<"for", " ", "x", " ", "in", " ", "y", ":", "NL1", "pass", "NL0", "else", ":">>, <<>>),
+  Cf(<<"while", " ", "x", ":">>, <<>>),
+  Cf(<<"while", " ", "x", ":", "NL1", "pass", "NL0", "else", ":">>, <<>>),
+  Cf(<<"def", " ", "x", "(", ")", ":">>, <<>>),
+  Cf(<<"class", " ", "x", ":">>, <<>>),
+  Cf(<<"if", " ", "x", ":">>, <<>>),
+  Cf(<<"if", " ", "x", ":", "NL1", "pass", "NL0", "else", ":">>, <<>>)
+>>
+NCompounds == Len(Compounds)
+Leaves == <<
+  <<"continue">>, <<"break">>, <<"return">>, <<"return", " ", "x">>, <<"yield">>, <<"yield", " ", "x">>, <<"x", " ", "=", " ", "yield">>,
+  <<"yield", " ", "from", " ", "x">>, <<"lambda", ":", " ", "(", "yield", ")">>, <<"nonlocal", " ", "x">>, <<"global", " ", "x">>,
+  <<"from", " ", "x", " ", "import", " ", "*">>, <<"import", " ", "x">>, <<"del", " ", "(", ")">>, <<"del", " ", "x">>, <<"raise">>,
+  <<"raise", " ", "x", " ", "from", " ", "y">>, <<"pass">>, <<"x", " ", "=", " ", "1">>, <<"x", " ", "+=", " ", "1">>, <<"assert", " ", "x">>
+>>
+NLeaves == Len(Leaves)
+NlShow(d) == <<"\\n", "\\n    ", "\\n        ", "\\n            ", "\\n                ">>[d + 1]   \* line break + indentation of depth d
+Place(shows, d) == [k \in 1..Len(shows) |-> IF shows[k] = "NL0" THEN NlShow(d) ELSE IF shows[k] = "NL1" THEN NlShow(d + 1) ELSE shows[k]]
+RECURSIVE NestShows(_, _, _)
+NestShows(frames, leaf, d) ==
+  IF frames = <<>> THEN Leaves[leaf]
+  ELSE LET c == Compounds[Head(frames)] IN
+       ((Place(c.head, d) \o <<NlShow(d + 1)>>) \o NestShows(Tail(frames), leaf, d + 1)) \o Place(c.tail, d)
+(* a nested case is encoded as fill = <<frame, ..., frame, leaf>> with f = -1 *)
+NestSeq(fill) == IdsOf(NestShows(SubSeq(fill, 1, Len(fill) - 1), fill[Len(fill)], 0))
+NestCases == UNION { { fr \o <<lf>> : fr \in [1..n -> 1..NCompounds], lf \in 1..NLeaves } : n \in 1..NestDepth }
+
+(* the item sequence of a case: a free sequence (f = 0), a filler in frame f, a nested case (f = -1) *)
+CaseSeq(f, fill) == IF f = 0 THEN fill ELSE IF f = -1 THEN NestSeq(fill) ELSE (FrameIds[f].pre \o Spread(fill)) \o FrameIds[f].post
 Skip == [lex |-> "skip", toks |-> <<>>]
 Record(f, fill) == LET s == CaseSeq(f, fill) IN
                    [s |-> s, f |-> f, a |-> IF f = 0 THEN Classify(s, TRUE) ELSE Skip, b |-> Classify(s, FALSE)]
@@ -132,15 +181,18 @@ Record(f, fill) == LET s == CaseSeq(f, fill) IN
 VARIABLES f, fill, tgt, out
 vars == <<f, fill, tgt, out>>
 Sim == SimLens # {}
-Init == /\ fill = <<>> /\ out = FALSE
-        /\ f \in 0..NFrames
-        /\ tgt \in (IF ~Sim THEN {0} ELSE IF f = 0 THEN SimLens ELSE SimFill)
+Init == \/ /\ fill = <<>> /\ out = FALSE
+           /\ f \in 0..NFrames
+           /\ tgt \in (IF ~Sim THEN {0} ELSE IF f = 0 THEN SimLens ELSE SimFill)
+        \/ /\ ~Sim /\ f = -1 /\ out = FALSE /\ tgt = 0
+           /\ fill \in NestCases
 Bound == IF Sim THEN tgt ELSE IF f = 0 THEN MaxLen ELSE MaxFill
 AllCore(q) == \A k \in 1..Len(q) : Alpha[q[k]].core
-(* exhaustive: every item is a successor; simulation: one item drawn with TLC's seeded RNG  *)
+(* exhaustive: every free item is a successor; simulation: one drawn with TLC's seeded RNG   *)
 (* (the simulator generates and checks every candidate successor, so offering all items and  *)
 (* letting it choose costs NAlpha times more)                                                *)
-Grow == /\ \E i \in (IF ~Sim THEN 1..NAlpha ELSE {RandomElement(1..NAlpha)}) :
+Grow == /\ f >= 0
+        /\ \E i \in (IF ~Sim THEN FreeIds ELSE {RandomElement(FreeIds)}) :
               /\ \/ Len(fill) < Bound
                  \/ ~Sim /\ f # 0 /\ Len(fill) < CoreFill /\ Alpha[i].core /\ AllCore(fill)
                  \/ ~Sim /\ f # 0 /\ Frames[f].body /\ Len(fill) = 1 /\ Alpha[i].core   \* any item + core item at a statement position
@@ -153,9 +205,11 @@ Export == /\ Sim /\ Len(fill) = tgt /\ ~out
           /\ PrintT(ToJson(Record(f, fill)))
           /\ out' = TRUE /\ UNCHANGED <<f, fill, tgt>>
 Idle == out /\ UNCHANGED vars
-Next == Grow \/ Export \/ Idle
+(* a nested case does its work (and is exported) in a step, not in the initial state *)
+Nest == f = -1 /\ ~out /\ out' = TRUE /\ UNCHANGED <<f, fill, tgt>>
+Next == Grow \/ Export \/ Idle \/ Nest
 Spec == Init /\ [][Next]_vars
 
 (* exhaustive configuration: one record per case (each distinct state is checked once) *)
-Emit == (~Sim /\ (f # 0 \/ fill # <<>>)) => PrintT(ToJson(Record(f, fill)))
+Emit == (~Sim /\ (f > 0 \/ (f = 0 /\ fill # <<>>) \/ (f = -1 /\ out))) => PrintT(ToJson(Record(f, fill)))
 =============================================================================
